@@ -31,7 +31,7 @@ package dnsforward
 //@   property C03
 //@   requires ip != netip.Addr{}
 //@   requires !held(s.serverLock) && !rheld(s.serverLock)
-//@   modifies LockR
+//@   modifies nothing
 //@   ensures decision: blocked == !admitted(s.access, ip, clientID)
 //@   ensures !rheld(s.serverLock)
 
@@ -150,4 +150,19 @@ package dnsforward
 //@ sweep C11 functype:github.com/AdguardTeam/AdGuardHome/internal/aghhttp.RegisterFunc
 //@ func (s *Server) registerHandlers()
 //@   property C11
+//@   modifies *
+
+// ---- C05: lock discipline (ghost lock state; every access to a guarded field in the package is an obligation) ----
+//@ guarded Server.access by serverLock
+//@ guarded Server.dnsProxy by serverLock
+
+//@ func (s *Server) stopLocked()
+//@   requires held(s.serverLock)
+//@   modifies *
+//@ func (s *Server) startLocked() (r0 error)
+//@   requires held(s.serverLock)
+//@   modifies *
+// Prepare runs at start-up before the server is shared, and later from Reconfigure under the server lock.
+//@ func (s *Server) Prepare(conf *ServerConfig) (err error)
+//@   construction
 //@   modifies *
